@@ -24,6 +24,7 @@
 #include <unistd.h>
 #include <sys/mman.h>
 #include <sys/wait.h>
+#include <fcntl.h>
 
 using namespace GeographicLib;
 using mc::Ctx; using mc::fx; using mc::fmt; using mc::fmti;
@@ -42,41 +43,52 @@ enum { C_DECODE, C_ANGLE, C_AZI, C_LL1, C_LL2, C_VALD, C_VALI, C_VALB, C_FRACT, 
 static const char* CALLNAME[NCALL] = {"Decode", "DecodeAngle", "DecodeAzimuth", "DecodeLatLon(s,7)", "DecodeLatLon(7,s)", "val<double>", "val<int>", "val<bool>",
                                       "fract<double>", "nummatch<double>", "ParseLine(blank)", "ParseLine(=)", "GeoCoords::Reset"};
 struct Rec {
-  unsigned char oc[NCALL];        // 0 ok, 1 GeographicErr, 2 other std::exception, 3 unknown exception
-  unsigned char found[2], klen[2], vlen[2];
-  char key[2][4], value[2][4];
+  unsigned char oc[NCALL];        // 0 ok, 1 GeographicErr, 2 other std::exception, 3 unknown exception, 4 the process died in the call
+  unsigned char found[2];
+  unsigned klen[2], vlen[2];        // ParseLine outputs: length, hash and the first 8 bytes
+  uint64_t khash[2], vhash[2];
+  char key[2][8], value[2][8];
   int ind;
   double v[NCALL], lat[2], lon[2];
 };
-struct Shm { volatile long cur; volatile long done; Rec rec[1]; };
+struct Shm { volatile long cur; volatile long done; volatile int call; Rec rec[1]; };
+static volatile int* g_call = nullptr;        // entry point being executed (child side)
+#define AT(c) do { if (g_call) *g_call = (c); } while (0)
 
+static uint64_t fnv(const std::string& s) { uint64_t h = 1469598103934665603ULL; for (unsigned char c : s) { h ^= c; h *= 1099511628211ULL; } return h; }
 template <class F> static unsigned char guard(F f) {
   try { f(); return 0; }
   catch (const GeographicErr&) { return 1; }
   catch (const std::exception&) { return 2; }
   catch (...) { return 3; }
 }
-static void run_string(const std::string& s, Rec& r) {
-  memset(&r, 0, sizeof r);
-  for (int i = 0; i < NCALL; ++i) r.v[i] = SENT;
-  { DMS::flag f = DMS::flag(FSENT); r.oc[C_DECODE] = guard([&] { double v = DMS::Decode(s, f); r.v[C_DECODE] = v; }); r.ind = int(f); }
-  r.oc[C_ANGLE] = guard([&] { double v = DMS::DecodeAngle(s); r.v[C_ANGLE] = v; });
-  r.oc[C_AZI] = guard([&] { double v = DMS::DecodeAzimuth(s); r.v[C_AZI] = v; });
-  r.lat[0] = r.lon[0] = r.lat[1] = r.lon[1] = SENT;
-  r.oc[C_LL1] = guard([&] { DMS::DecodeLatLon(s, "7", r.lat[0], r.lon[0]); });
-  r.oc[C_LL2] = guard([&] { DMS::DecodeLatLon("7", s, r.lat[1], r.lon[1]); });
-  r.oc[C_VALD] = guard([&] { double v = Utility::val<double>(s); r.v[C_VALD] = v; });
-  r.oc[C_VALI] = guard([&] { int v = Utility::val<int>(s); r.v[C_VALI] = v; });
-  r.oc[C_VALB] = guard([&] { bool v = Utility::val<bool>(s); r.v[C_VALB] = v; });
-  r.oc[C_FRACT] = guard([&] { double v = Utility::fract<double>(s); r.v[C_FRACT] = v; });
-  r.oc[C_NUMMATCH] = guard([&] { double v = Utility::nummatch<double>(s); r.v[C_NUMMATCH] = v; });
+// runs entry points from_call.. on s; a fresh record is started when from_call == 0 (after the death of a child the
+// same string is resumed behind the entry point that died)
+static void run_string(const std::string& s, Rec& r, int from_call) {
+  if (from_call == 0) {
+    memset(&r, 0, sizeof r);
+    for (int i = 0; i < NCALL; ++i) { r.v[i] = SENT; r.oc[i] = 4; }          // 4 = not executed / died
+    r.lat[0] = r.lon[0] = r.lat[1] = r.lon[1] = SENT; r.ind = FSENT;
+  }
+  auto go = [&](int c) { if (c < from_call) return false; AT(c); return true; };
+  if (go(C_DECODE)) { DMS::flag f = DMS::flag(FSENT); r.oc[C_DECODE] = guard([&] { double v = DMS::Decode(s, f); r.v[C_DECODE] = v; }); r.ind = int(f); }
+  if (go(C_ANGLE)) r.oc[C_ANGLE] = guard([&] { double v = DMS::DecodeAngle(s); r.v[C_ANGLE] = v; });
+  if (go(C_AZI)) r.oc[C_AZI] = guard([&] { double v = DMS::DecodeAzimuth(s); r.v[C_AZI] = v; });
+  if (go(C_LL1)) r.oc[C_LL1] = guard([&] { DMS::DecodeLatLon(s, "7", r.lat[0], r.lon[0]); });
+  if (go(C_LL2)) r.oc[C_LL2] = guard([&] { DMS::DecodeLatLon("7", s, r.lat[1], r.lon[1]); });
+  if (go(C_VALD)) r.oc[C_VALD] = guard([&] { double v = Utility::val<double>(s); r.v[C_VALD] = v; });
+  if (go(C_VALI)) r.oc[C_VALI] = guard([&] { int v = Utility::val<int>(s); r.v[C_VALI] = v; });
+  if (go(C_VALB)) r.oc[C_VALB] = guard([&] { bool v = Utility::val<bool>(s); r.v[C_VALB] = v; });
+  if (go(C_FRACT)) r.oc[C_FRACT] = guard([&] { double v = Utility::fract<double>(s); r.v[C_FRACT] = v; });
+  if (go(C_NUMMATCH)) r.oc[C_NUMMATCH] = guard([&] { double v = Utility::nummatch<double>(s); r.v[C_NUMMATCH] = v; });
   for (int k = 0; k < 2; ++k) {
+    if (!go(C_PL0 + k)) continue;
     std::string key = "<k>", value = "<v>";
     r.oc[C_PL0 + k] = guard([&] { bool f = Utility::ParseLine(s, key, value, k ? '=' : '\0', '#'); r.found[k] = f; });
-    r.klen[k] = (unsigned char)std::min<size_t>(key.size(), 4); r.vlen[k] = (unsigned char)std::min<size_t>(value.size(), 4);
-    memcpy(r.key[k], key.data(), std::min<size_t>(key.size(), 4)); memcpy(r.value[k], value.data(), std::min<size_t>(value.size(), 4));
+    r.klen[k] = (unsigned)key.size(); r.vlen[k] = (unsigned)value.size(); r.khash[k] = fnv(key); r.vhash[k] = fnv(value);
+    memcpy(r.key[k], key.data(), std::min<size_t>(key.size(), 8)); memcpy(r.value[k], value.data(), std::min<size_t>(value.size(), 8));
   }
-  r.oc[C_GEOCOORDS] = guard([&] { GeoCoords g; g.Reset(s); r.v[C_GEOCOORDS] = g.Latitude(); });
+  if (go(C_GEOCOORDS)) r.oc[C_GEOCOORDS] = guard([&] { GeoCoords g; g.Reset(s); r.v[C_GEOCOORDS] = g.Latitude(); });
 }
 
 // ------------------------------------------------------------------ judging (parent)
@@ -92,9 +104,9 @@ static void judge(Ctx& ctx, const std::string& s, const Rec& r) {
   auto F = [&](const char* kind, int call, const char* why = "") { return mc::Fields{{"kind", kind}, {"fn", CALLNAME[call]}, {"string", show(s)}, {"why", why}}; };
   uint64_t h = 0; for (int i = 0; i < NCALL; ++i) h = h * 5 + r.oc[i];
   // ---- only the library's exception
-  for (int i = 0; i < NCALL; ++i) if (r.oc[i] >= 2) ctx.fail(key + "/" + CALLNAME[i], std::string(CALLNAME[i]) + " threw an exception that is not GeographicErr", F("foreign-exception", i));
-  if (r.oc[C_NUMMATCH] != 0) ctx.fail(key + "/nummatch", "nummatch threw", F("nummatch-throws", C_NUMMATCH));
-  if (r.oc[C_PL0] != 0 || r.oc[C_PLEQ] != 0) ctx.fail(key + "/ParseLine", "ParseLine threw", F("parseline-throws", C_PL0));
+  for (int i = 0; i < NCALL; ++i) if (r.oc[i] == 2 || r.oc[i] == 3) ctx.fail(key + "/" + CALLNAME[i], std::string(CALLNAME[i]) + " threw an exception that is not GeographicErr", F("foreign-exception", i));
+  if (r.oc[C_NUMMATCH] >= 1 && r.oc[C_NUMMATCH] <= 3) ctx.fail(key + "/nummatch", "nummatch threw", F("nummatch-throws", C_NUMMATCH));
+  if ((r.oc[C_PL0] >= 1 && r.oc[C_PL0] <= 3) || (r.oc[C_PLEQ] >= 1 && r.oc[C_PLEQ] <= 3)) ctx.fail(key + "/ParseLine", "ParseLine threw", F("parseline-throws", C_PL0));
   // ---- outputs untouched on throw
   if (r.oc[C_DECODE] == 1 && r.ind != FSENT) ctx.fail(key + "/ind", "Decode threw but modified the flag output", F("touched", C_DECODE));
   for (int k = 0; k < 2; ++k) if (r.oc[C_LL1 + k] == 1 && (r.lat[k] != SENT || r.lon[k] != SENT)) ctx.fail(key + "/ll" + fmti(k), "DecodeLatLon threw but modified lat/lon (documented: unchanged)", F("touched", C_LL1 + k));
@@ -160,17 +172,33 @@ static void judge(Ctx& ctx, const std::string& s, const Rec& r) {
   for (int k = 0; k < 2; ++k) {
     if (r.oc[C_PL0 + k] != 0) continue;
     tref::Line t = tref::parse_line(s, k ? '=' : '\0', '#');
-    std::string gk(r.key[k], r.klen[k]), gv(r.value[k], r.vlen[k]);
-    if (t.found != (r.found[k] != 0) || t.key != gk || t.value != gv)
+    std::string gk(r.key[k], std::min(r.klen[k], 8u)), gv(r.value[k], std::min(r.vlen[k], 8u));
+    if (t.found != (r.found[k] != 0) || t.key.size() != r.klen[k] || t.value.size() != r.vlen[k] || fnv(t.key) != r.khash[k] || fnv(t.value) != r.vhash[k])
       ctx.fail(key + "/ParseLine" + fmti(k), std::string(CALLNAME[C_PL0 + k]) + " = (" + fmti(r.found[k]) + ",'" + show(gk) + "','" + show(gv) + "') documented (" + fmti(t.found) + ",'" + show(t.key) + "','" + show(t.value) + "')", F("parseline", C_PL0 + k));
   }
   ctx.sig(h);
 }
 
 // ------------------------------------------------------------------ fork executor
+struct Death { int status; int call; std::string report; };       // report: canonical name of the sanitizer finding, or "none"
+static std::string classify_report(const std::string& err) {
+  size_t p = err.find("runtime error: ");
+  if (p != std::string::npos) {
+    std::string m = err.substr(p + 15, err.find('\n', p) == std::string::npos ? std::string::npos : err.find('\n', p) - p - 15);
+    if (m.find("out of bounds for type") != std::string::npos) return "array-index-out-of-bounds";
+    if (m.find("signed integer overflow") != std::string::npos) return "signed-integer-overflow";
+    if (m.find("outside the range of representable values") != std::string::npos) return "float-cast-overflow";
+    if (m.find("load of value") != std::string::npos) return "invalid-enum-or-bool";
+    return "undefined-behavior";
+  }
+  p = err.find("ERROR: AddressSanitizer: ");
+  if (p != std::string::npos) { size_t b = p + 25, e = err.find_first_of(" \n", b); return err.substr(b, e == std::string::npos ? e : e - b); }
+  return "none";
+}
 struct Exec {
   Shm* shm = nullptr; size_t cap = 0;
   uint64_t forks = 0;
+  int errfd = -1;
   void ensure(size_t n) {
     if (n <= cap) return;
     if (shm) munmap(shm, sizeof(Shm) + cap * sizeof(Rec));
@@ -178,49 +206,91 @@ struct Exec {
     if (shm == MAP_FAILED) { perror("mmap"); exit(2); }
     cap = n;
   }
-  // runs all strings; calls sink(i, rec*) in order; rec == nullptr means the child died while executing string i
+  // runs all strings; calls sink(i, rec, deaths) once per string, in order.  deaths lists the entry points in which a
+  // child died while executing string i (the string is resumed behind that entry point in a new child).
   template <class Sink> void run(const std::vector<std::string>& strs, Sink sink) {
     ensure(strs.size());
-    size_t next = 0, n = strs.size();
+    if (errfd < 0) { errfd = memfd_create("c10-child-stderr", 0); if (errfd < 0) { perror("memfd_create"); exit(2); } }
+    size_t next = 0, n = strs.size(); int from_call = 0;
+    std::vector<Death> deaths;
     while (next < n) {
-      shm->cur = -1; shm->done = (long)next;
+      shm->cur = -1; shm->done = (long)next; shm->call = -1;
+      if (ftruncate(errfd, 0) != 0) {} lseek(errfd, 0, SEEK_SET);
       fflush(nullptr);
       ++forks;
       pid_t pid = fork();
       if (pid < 0) { perror("fork"); exit(2); }
       if (pid == 0) {
         alarm(900);
-        for (size_t i = next; i < n; ++i) { shm->cur = (long)i; run_string(strs[i], shm->rec[i]); shm->done = (long)i + 1; }
+        dup2(errfd, 2);
+        g_call = &shm->call;
+        for (size_t i = next; i < n; ++i) { shm->cur = (long)i; run_string(strs[i], shm->rec[i], i == next ? from_call : 0); shm->done = (long)i + 1; }
         _exit(0);
       }
       int st = 0; while (waitpid(pid, &st, 0) < 0 && errno == EINTR) {}
       size_t done = (size_t)shm->done;
-      for (size_t i = next; i < done; ++i) sink(i, &shm->rec[i], 0);
-      if (done >= n && WIFEXITED(st) && WEXITSTATUS(st) == 0) { next = n; break; }
-      if (done < n) { sink(done, nullptr, st); next = done + 1; }
-      else next = n;
+      for (size_t i = next; i < done; ++i) { sink(i, shm->rec[i], deaths); deaths.clear(); }
+      if (done >= n) break;
+      // the child died while executing string `done` in entry point shm->call
+      std::string err; char b[4096]; ssize_t k; lseek(errfd, 0, SEEK_SET);
+      while (err.size() < 16384 && (k = read(errfd, b, sizeof b)) > 0) err.append(b, (size_t)k);
+      int call = shm->call;
+      if (call < 0 || call >= NCALL || (size_t)shm->cur != done) { fprintf(stderr, "C10_bytes: child died outside a library call (status %d):\n%s\n", st, err.c_str()); exit(2); }
+      if (deaths_logged++ < 40) fprintf(stderr, "---- child died on string '%s' in %s:\n%s\n", show(strs[done]).c_str(), CALLNAME[call], err.substr(0, 1500).c_str());
+      deaths.push_back(Death{st, call, classify_report(err)});
+      next = done; from_call = call + 1;
+      if (from_call >= NCALL) { sink(done, shm->rec[done], deaths); deaths.clear(); next = done + 1; from_call = 0; }
     }
   }
+  uint64_t deaths_logged = 0;
 };
 
+// input class used to key known findings (computed from the string alone):
+//   colon-after-seconds : in some sign-delimited piece a ':' follows three completed components (d ' " or earlier colons)
+//   digits10+           : the string starts with ten or more decimal digits
+static std::string input_class(const std::string& s) {
+  bool lower; std::string c = dmsg::detail::merge_quotes(dmsg::detail::lex(s, lower), true);
+  std::string cls;
+  int np = 0;
+  for (char ch : c) {
+    if (ch == '+' || ch == '-') np = 0;
+    else if (ch == 'd') np = 1; else if (ch == '\'') np = 2; else if (ch == '"') np = 3;
+    else if (ch == ':') { if (np >= 3) { cls = "colon-after-seconds"; break; } ++np; }
+  }
+  size_t nd = 0; while (nd < s.size() && s[nd] >= '0' && s[nd] <= '9') ++nd;
+  if (nd >= 10) cls += cls.empty() ? "digits10+" : ",digits10+";
+  return cls.empty() ? "other" : cls;
+}
+
 int main(int argc, char** argv) {
+  // Sanitizer reports of dying children must be cheap (thousands of them when a defect is hit): no symbolizer, no
+  // stack trace.  The options are read at process start, so re-execute once with them set.
+  if (!getenv("C10_BYTES_REEXEC")) {
+    setenv("C10_BYTES_REEXEC", "1", 1);
+    setenv("ASAN_OPTIONS", "detect_leaks=0:abort_on_error=0:allocator_may_return_null=1:symbolize=0:detect_stack_use_after_return=0", 1);
+    setenv("UBSAN_OPTIONS", "print_stacktrace=0:halt_on_error=1:symbolize=0", 1);
+    execv("/proc/self/exe", argv);
+    perror("execv"); return 2;
+  }
   { std::string st = dmsg::selftest(); if (!st.empty()) { fprintf(stderr, "C10_bytes: reference recogniser self-test failed: %s\n", st.c_str()); return 2; } }
   Ctx ctx(argc, argv);
   const bool T = ctx.thorough();
   Exec ex;
   uint64_t nstr = 0;
   auto unit = [&](const std::vector<std::string>& strs) {
-    ex.run(strs, [&](size_t i, const Rec* r, int st) {
+    ex.run(strs, [&](size_t i, const Rec& r, const std::vector<Death>& deaths) {
       Ctx::Case cs(ctx);
       ++nstr;
-      if (!r) {
+      for (const Death& d : deaths) {
+        int st = d.status;
         std::string how = WIFSIGNALED(st) ? "signal " + fmti(WTERMSIG(st)) : "exit status " + fmti(WIFEXITED(st) ? WEXITSTATUS(st) : -1);
-        ctx.sig(999);
-        ctx.fail("'" + show(strs[i]) + "'/death", "the process died while parsing this string (" + how + "; sanitizer report, if any, is in the shard log)", {{"kind", WIFSIGNALED(st) && WTERMSIG(st) == SIGALRM ? "hang" : "sanitizer-or-signal"}, {"string", show(strs[i])}});
-        return;
+        std::string fn = CALLNAME[d.call];
+        ctx.sig(999 + d.call);
+        ctx.fail("'" + show(strs[i]) + "'/death/" + fn, "the process died in " + fn + " on this string (" + how + ", sanitizer finding: " + d.report + "; first reports are in the shard log)",
+                 {{"kind", WIFSIGNALED(st) && WTERMSIG(st) == SIGALRM ? "hang" : "sanitizer-or-signal"}, {"fn", fn}, {"report", d.report}, {"input_class", input_class(strs[i])}, {"string", show(strs[i])}});
       }
-      judge(ctx, strs[i], *r);
-      if (ctx.want_sample()) ctx.sample("'" + show(strs[i]) + "' Decode outcome " + fmti(r->oc[C_DECODE]));
+      judge(ctx, strs[i], r);
+      if (ctx.want_sample()) ctx.sample("'" + show(strs[i]) + "' Decode outcome " + fmti(r.oc[C_DECODE]));
     });
   };
   ctx.sub("bytes-short");
@@ -245,6 +315,22 @@ int main(int argc, char** argv) {
     std::vector<std::string> strs; strs.reserve(A.size() * A.size());
     for (size_t j = 0; j < A.size(); ++j) for (size_t k = 0; k < A.size(); ++k) { std::string s; s += A[i]; s += A[j]; s += A[k]; strs.push_back(s); }
     unit(strs);
+  }
+  // ---- pumped token strings: p w^k q
+  {
+    ctx.sub("pump");
+    const std::vector<std::string> tok = {"-", "+", "\xe2\x88\x92", "N", "s", "E", "1", "07", "60", "59.5", ".5", "d", "\xc2\xb0", "'", "\"", ":"};
+    std::vector<std::string> pq = {"", "-", "N", "1", ".5", "d", "'", ":"};
+    if (T) { pq = {""}; for (auto& t : tok) pq.push_back(t); }
+    std::vector<std::string> ws = tok; for (auto& a : tok) for (auto& b : tok) ws.push_back(a + b);
+    std::vector<int> ks = {3, 4, 5, 8, 40}; if (T) { ks.push_back(6); ks.push_back(16); ks.push_back(200); }
+    ctx.bound("pump", "all strings p w^k q with p, q in " + std::string(T ? "{empty} + 16 tokens" : "{empty, -, N, 1, .5, d, ', :}") + ", w a token sequence of length 1 or 2 (272), k in " + std::string(T ? "{3,4,5,6,8,16,40,200}" : "{3,4,5,8,40}") + " x 13 parser entry points");
+    for (auto& w : ws) {
+      if (!ctx.take()) continue;
+      std::vector<std::string> strs;
+      for (int k : ks) { std::string mid; for (int i = 0; i < k; ++i) mid += w; for (auto& p : pq) for (auto& q : pq) strs.push_back(p + mid + q); }
+      unit(strs);
+    }
   }
   ctx.count("strings", nstr); ctx.count("parser_calls", nstr * NCALL); ctx.count("forks", ex.forks);
   return ctx.finish();
